@@ -3574,26 +3574,114 @@ func mergeResultOpenedAfterProgram(c *Ctx, rule string) {
 		c.Missing(rule, "commands.processFiles", "not found")
 		return
 	}
-	var run ssa.Instruction
-	for _, ci := range CallsIn(fn, "(*subprocess.Cmd).Run", "(*subprocess.Cmd).Wait", "(*subprocess.Cmd).Output", "(*subprocess.Cmd).CombinedOutput") {
-		run = ci
+	// the driver's own helpers: functions of the package reached from processFiles, up to the clean wrapper
+	helpers := samePkgReach(fn, 4, "commands.clean")
+	var runs []ssa.Instruction
+	for _, h := range helpers {
+		for _, ci := range CallsIn(h, "(*subprocess.Cmd).Run", "(*subprocess.Cmd).Wait", "(*subprocess.Cmd).Output", "(*subprocess.Cmd).CombinedOutput") {
+			runs = append(runs, ci)
+		}
 	}
 	n := 0
-	for _, ci := range CallsIn(fn, "commands.clean") {
-		a := CallArgs(ci.Common())
-		if len(a) < 3 {
-			continue
+	for _, h := range helpers {
+		for _, ci := range CallsIn(h, "commands.clean") {
+			a := CallArgs(ci.Common())
+			if len(a) < 3 {
+				continue
+			}
+			n++
+			oc, _, ok := CallResult(a[2])
+			good := false
+			if ok && len(runs) > 0 && oc.Parent() == h && strings.HasPrefix(CalleeName(oc.Common()), "os.Open") {
+				good = true
+				for _, run := range runs {
+					if !strictlyAfterIn(fn, run, oc, 4) {
+						good = false
+					}
+				}
+			}
+			c.Check(good, rule, "merge-driver:result-opened-after-program", p.InstrPos(ci), "the file that is cleaned is opened after the merge program ran",
+				"the merge driver cleans a handle that was not opened after the merge program ran: a program that replaces its output file leaves the handle on the old, empty file, and an empty pointer is written with exit status 0")
 		}
-		n++
-		oc, _, ok := CallResult(a[2])
-		good := false
-		if ok && run != nil && strings.HasPrefix(CalleeName(oc.Common()), "os.Open") {
-			good = after(run, oc) && !after(oc, run)
-		}
-		c.Check(good, rule, "merge-driver:result-opened-after-program", p.InstrPos(ci), "the file that is cleaned is opened after the merge program ran",
-			"the merge driver cleans a handle that was not opened after the merge program ran: a program that replaces its output file leaves the handle on the old, empty file, and an empty pointer is written with exit status 0")
 	}
 	c.AtLeast(rule, "clean calls in processFiles", n, 1)
+}
+
+// samePkgReach: root and the functions of root's package that root reaches through static calls within that
+// package (at most depth levels), not descending into the named callees.
+func samePkgReach(root *ssa.Function, depth int, stopAt ...string) []*ssa.Function {
+	var out []*ssa.Function
+	seen := map[*ssa.Function]bool{}
+	var visit func(f *ssa.Function, d int)
+	visit = func(f *ssa.Function, d int) {
+		if f == nil || seen[f] || f.Blocks == nil || f.Pkg != root.Pkg || d > depth {
+			return
+		}
+		seen[f] = true
+		out = append(out, f)
+		for _, b := range f.Blocks {
+			for _, in := range b.Instrs {
+				if sc := AsCall(in); sc != nil {
+					if callee := sc.StaticCallee(); callee != nil && !nameIn(CalleeName(sc), stopAt) {
+						visit(callee, d+1)
+					}
+				}
+			}
+		}
+	}
+	visit(root, 0)
+	return out
+}
+
+// liftChains: the ways instruction in is reached from root through static calls inside root's package: each chain
+// is the call instruction in root, the call in that callee, ..., and finally in itself.
+func liftChains(root *ssa.Function, in ssa.Instruction, depth int) [][]ssa.Instruction {
+	var out [][]ssa.Instruction
+	var walk func(f *ssa.Function, prefix []ssa.Instruction, d int)
+	walk = func(f *ssa.Function, prefix []ssa.Instruction, d int) {
+		if f == in.Parent() {
+			out = append(out, append(append([]ssa.Instruction{}, prefix...), in))
+			return
+		}
+		if d >= depth {
+			return
+		}
+		for _, b := range f.Blocks {
+			for _, x := range b.Instrs {
+				if sc := AsCall(x); sc != nil {
+					if callee := sc.StaticCallee(); callee != nil && callee.Pkg == root.Pkg && callee.Blocks != nil && callee != f {
+						walk(callee, append(prefix, x), d+1)
+					}
+				}
+			}
+		}
+	}
+	walk(root, nil, 0)
+	return out
+}
+
+// strictlyAfterIn: on every way a and b are reached from root, b happens after a and never before it — decided
+// at the first function in which the two chains differ.
+func strictlyAfterIn(root *ssa.Function, a, b ssa.Instruction, depth int) bool {
+	ca, cb := liftChains(root, a, depth), liftChains(root, b, depth)
+	if len(ca) == 0 || len(cb) == 0 {
+		return false
+	}
+	for _, x := range ca {
+		for _, y := range cb {
+			i := 0
+			for i < len(x) && i < len(y) && x[i] == y[i] {
+				i++
+			}
+			if i >= len(x) || i >= len(y) {
+				return false
+			}
+			if !after(x[i], y[i]) || after(y[i], x[i]) {
+				return false
+			}
+		}
+	}
+	return true
 }
 
 // smudgeCopiesWholeResult (C01): with a pointer extension the bytes smudge writes are the output of the
@@ -3813,13 +3901,18 @@ func objectIDPushNeedsLocalObject(c *Ctx, rule string) {
 // 2, or Cut), never split at every tab.
 func lsTreePathIsRemainder(c *Ctx, rule string) {
 	p := c.P
-	fn := p.Fn("git", "(*LsTreeScanner).next")
-	if fn == nil {
-		c.Missing(rule, "(*git.LsTreeScanner).next", "not found")
+	root := p.Fn("git", "(*LsTreeScanner).Scan")
+	if root == nil {
+		c.Missing(rule, "(*git.LsTreeScanner).Scan", "not found")
 		return
 	}
 	n := 0
-	for _, ci := range CallsIn(fn, "strings.Split", "strings.SplitN", "strings.Fields", "strings.FieldsFunc", "strings.Cut", "strings.SplitAfterN", "strings.SplitAfter") {
+	// the record is parsed in Scan or in one of the package's helpers it calls (next, today)
+	var splits []ssa.CallInstruction
+	for _, h := range samePkgReach(root, 3) {
+		splits = append(splits, CallsIn(h, "strings.Split", "strings.SplitN", "strings.Fields", "strings.FieldsFunc", "strings.Cut", "strings.SplitAfterN", "strings.SplitAfter")...)
+	}
+	for _, ci := range splits {
 		a := CallArgs(ci.Common())
 		if len(a) < 2 {
 			continue
@@ -4391,7 +4484,22 @@ func usernameIsDecodedUserinfo(c *Ctx, rule string) {
 				if e == nil {
 					continue
 				}
-				if cc, _, ok := CallResult(e); ok && CalleeName(cc.Common()) == "(*net/url.Userinfo).Username" {
+				// the value, or every value a local variable holding it can have: Username(), or a constant
+				// (the variable's initial "")
+				some, all := false, true
+				for _, l := range p.LeavesNoFields(e, func(v ssa.Value) FlowAct {
+					if _, _, ok := CallResult(v); ok {
+						return Stop
+					}
+					return Descend
+				}) {
+					if cc, _, ok := CallResult(l); ok && CalleeName(cc.Common()) == "(*net/url.Userinfo).Username" {
+						some = true
+					} else if _, isC := ConstString(l); !isC {
+						all = false
+					}
+				}
+				if some && all {
 					good = true
 				}
 			}
